@@ -125,6 +125,8 @@ func osapExtraLayers(tier string) []Layer {
 		f(append([]byte("x"), bytes.Repeat([]byte("abc"), 200)...))
 	}}
 	return []Layer{
+		// data appended while unparsed data is pending (no Shrink in between): edges recomputed with W > 0
+		{Name: "osap-trickle", Kinds: []string{"OSAP"}, Geos: multiBlockGeos, Level: 0, Inputs: Binary(8), Menu: Menu{Trickle: true, ShrinkDev: true}, Bound: 1, CfgPerShard: 1},
 		{Name: "osap-nested", Kinds: []string{"OSAP"}, CfgsFn: osapCfgs(wide, [][2]int{{2, 273}, {3, 273}, {4, 273}, {2, 4}}), Inputs: NestedPrefixes(), Menu: m, Bound: 1, CfgPerShard: 2},
 		{Name: "osap-longmatch", Kinds: []string{"OSAP"}, CfgsFn: osapCfgs(long, [][2]int{{2, 274}, {2, 1000}, {3, 600}}), Inputs: longIn, Menu: m, Bound: 0, CfgPerShard: 1},
 	}
